@@ -105,7 +105,7 @@ func worldTunnel(w *World) {
 	customByte := w.KnobBool("tls_custom_first_byte", 30)
 	tcpMux := w.KnobBool("tcp_mux", 65)
 	tw.tcpMux = tcpMux
-	proto := []string{"tcp", "tcp", "websocket"}[w.Knob("protocol", 0, 2)]
+	proto := []string{"tcp", "tcp", "websocket", "quic"}[w.Knob("protocol", 0, 3)]
 	pool := w.KnobPick("pool", 0, 0, 1, 2, 5)
 	nprox := w.KnobPick("nproxies", 1, 1, 2, 3)
 	shareHTTPS := w.KnobBool("https_shares_bind_port", 40)
@@ -133,6 +133,9 @@ func worldTunnel(w *World) {
 	if certs {
 		scfg["transport"].(map[string]any)["tls"] = map[string]any{
 			"certFile": w.In.CertDir + "/server.crt", "keyFile": w.In.CertDir + "/server.key"}
+	}
+	if proto == "quic" {
+		scfg["quicBindPort"] = 7001
 	}
 	frps, err := w.StartFrps(w.Frps, scfg)
 	if err != nil {
@@ -243,13 +246,46 @@ func worldTunnel(w *World) {
 		tw.proxies = append(tw.proxies, p)
 	}
 
+	srvPort := 7000
+	if proto == "quic" {
+		// quic-go's own code over the simulated packet network; every logical connection is a QUIC stream, which
+		// buffers like a multiplexed stream does
+		srvPort = 7001
+		tw.tcpMux = true
+		w.Probe("tunnel.quic_transport")
+		if w.In.Faults {
+			// datagram loss, duplication and reordering between the clients and the server: QUIC has to hide them
+			lossP := float64(w.KnobPick("quic.loss_pct", 0, 1, 5)) / 100
+			dupP := float64(w.KnobPick("quic.dup_pct", 0, 1, 5)) / 100
+			reoP := float64(w.KnobPick("quic.reorder_pct", 0, 5, 20)) / 100
+			qr := simnet.NewRand(w.In.Seed, "quicfault")
+			simnet.UDPSendHook = func(from *net.UDPAddr, to string, data []byte) (int, time.Duration, bool) {
+				if to != "10.0.0.1:7001" && !(from != nil && from.Port == 7001) {
+					return 1, 0, true
+				}
+				copies, extra := 1, time.Duration(0)
+				if qr.Chance(lossP) {
+					copies = 0
+					w.Net.CountLocked("fault.udp_loss", 1)
+				} else if qr.Chance(dupP) {
+					copies = 2
+					w.Net.CountLocked("fault.udp_dup", 1)
+				}
+				if qr.Chance(reoP) {
+					extra = time.Duration(qr.Range(1, 60)) * time.Millisecond
+					w.Net.CountLocked("fault.udp_reorder", 1)
+				}
+				return copies, extra, true
+			}
+		}
+	}
 	ctr := map[string]any{
 		"protocol": proto, "poolCount": pool, "tcpMux": tcpMux,
 		"connectServerLocalIP": "10.0.1.1",
 		"tls":                  map[string]any{"enable": tlsOn, "disableCustomTLSFirstByte": !customByte},
 	}
 	ccfg := map[string]any{
-		"serverAddr": "10.0.0.1", "serverPort": 7000, "loginFailExit": false,
+		"serverAddr": "10.0.0.1", "serverPort": srvPort, "loginFailExit": false,
 		"auth":              map[string]any{"token": tw.token},
 		"transport":         ctr,
 		"natHoleStunServer": "10.0.9.9:3478",
@@ -266,7 +302,7 @@ func worldTunnel(w *World) {
 		}
 		ctr2["connectServerLocalIP"] = "10.0.1.2"
 		vcfg := map[string]any{
-			"serverAddr": "10.0.0.1", "serverPort": 7000, "loginFailExit": false,
+			"serverAddr": "10.0.0.1", "serverPort": srvPort, "loginFailExit": false,
 			"auth":              map[string]any{"token": tw.token},
 			"transport":         ctr2,
 			"natHoleStunServer": "10.0.9.9:3478",
